@@ -41,3 +41,32 @@ Proof.
   { destruct p1; cbn [owns] in Ho; try discriminate; inversion Ho; subst; cbn [tassert] in T1; tauto. }
   destruct Hp as [-> | ->]; cbn [tassert] in T2; lia.
 Qed.
+
+(* every state the correspondence run starts from (npre values stored sequentially) satisfies the invariant *)
+Lemma replay_pushes : forall vs q0, replay (map LPush vs) q0 = Some (q0 ++ vs).
+Proof.
+  induction vs as [|v vs IH]; intros q0; cbn [map replay].
+  - rewrite app_nil_r. reflexivity.
+  - rewrite IH, <- app_assoc. reflexivity.
+Qed.
+Lemma sumw_idle n : sumw (repeat Idle n) = 0.
+Proof. induction n as [|n IH]; cbn [repeat sumw wlen]; lia. Qed.
+Lemma nlinked_idle n : nlinked (repeat Idle n) = 0.
+Proof. induction n as [|n IH]; cbn [repeat nlinked linked]; lia. Qed.
+
+Theorem seq_state_inv npre n : Inv (seq_state npre n).
+Proof.
+  unfold seq_state. cbv zeta. constructor; cbn [sh ths hist vals head tail len q lin].
+  - lia.
+  - rewrite nlinked_idle. cbn [length]. rewrite !map_length, seq_length. cbn. lia.
+  - rewrite nlinked_idle. lia.
+  - rewrite map_length, seq_length. lia.
+  - intros j Hj. rewrite map_length, seq_length in Hj. cbn [Nat.add nth].
+    rewrite (nth_indep _ None (Some 0)) by (rewrite !map_length, seq_length; lia).
+    rewrite (map_nth Some). reflexivity.
+  - rewrite sumw_idle. lia.
+  - apply (replay_pushes _ []).
+  - intros a b p1 p2 m _ Ha _ Ho. apply nth_error_In, repeat_spec in Ha. subst. discriminate.
+  - apply Forall_forall. intros p Hp. apply repeat_spec in Hp. subst. exact I.
+  - constructor.
+Qed.
